@@ -113,9 +113,8 @@ def nested_cases(g, pg, sg, n):
         doc = g.document(3, 4)
 
         def item():
-            if g.r.random() < 0.5:
-                return normalise_path(limit_parts(pg.path(doc, max_len=2, mods_p=0.4)))
-            return copy.deepcopy(g.r.choice(lits))
+            from ..nestedgen import nested_item
+            return nested_item(g, pg, doc)
 
         def leaf():
             if g.r.random() < 0.65:
